@@ -842,7 +842,7 @@ impl Prop for C15 {
     }
     fn cases(&self, tier: Tier) -> u64 {
         match tier {
-            Tier::Quick => 300_000,
+            Tier::Quick => 2_000_000,
             Tier::Thorough => 20_000_000,
         }
     }
